@@ -305,7 +305,7 @@ def run_homog(ctx, sh):
                 for (c, cr), b0 in zip(cands, base):
                     ctx.evals += 1
                     got = float(fb.get_kemeny_score(cr, dataset))
-                    if abs(got - k * b0) > 1e-9 * max(1.0, abs(k * b0)):
+                    if abs(got - k * b0) > 1e-9:
                         ctx.violation('score-not-homogeneous', {'cfg': {}, 'kind': 'homog', 'dataset': ds, 'n': sh['n'],
                                                                 'scheme': s, 'k': k, 'candidate': c}, got, k * b0)
                         break
